@@ -84,6 +84,11 @@ def c02(tier, replay):
     run.cov["bfs_chain_events"] = summ.get("bfs_events", 0)
     run.cov["family_chain_events"] = summ.get("family_events", 0)
     R.need(totals, ["gen", "castle", "ep", "promo"])
+    # "every move the engine generates ... however long the chain": the successors of capture-only generation too (their
+    # descriptor and position; which captures are generated is C13's business)
+    t2, _ = R.rules_trace(run, "C02", ["--playouts", 60 if q else 600, "--plies", 40, "--caps-prob", 0.6, "--caps-budget", 16], "capschains",
+                          also=(("C13", "successor"), ("C13", "descriptor")))
+    run.cov["capture_chain_events"] = t2.get("gen", 0)
     R.family_direction_a(run, "C02", ("successor-after", "text-printed"), {"castle": 6, "ep": 60, "ep2": 80, "promo": 8, "rookcap": 4} if q else {"castle": 1, "ep": 3, "ep2": 4, "promo": 1, "rookcap": 1},
                          fams=("castle", "ep", "ep2", "promo", "rookcap"))
     model_game(run, tier)
